@@ -8,7 +8,7 @@
 (* its own against HashCodec.tla / Distance.tla / Serde.tla.               *)
 (* STRICT is the strictness of the build that produced the trace.          *)
 (***************************************************************************)
-EXTENDS Distance, Serde, Alloc, Json, IOUtils, TLCExt
+EXTENDS Distance, Serde, Alloc, Options, Json, IOUtils, TLCExt
 
 Rec == ndJsonDeserialize(IOEnv.TRACE)
 STRICT == IOEnv.STRICT = "1"
@@ -222,9 +222,37 @@ TAgg ==
        /\ WLe(Ev.q[1], Ev.q[2]) /\ WLe(Ev.q[2], Ev.q[3])
        /\ Ev.out = BodyOf(av, bk, Ev.q[1], Ev.q[2], Ev.q[3])
 
+-----------------------------------------------------------------------------
+(* Beyond the listed properties: options, error taxonomy, equality laws.   *)
+
+\* a sequence of builder calls on GeneratorOptions::new(); `fin` is the result of
+\* finalizing a fixed generator with the built options, `fan` the 32-option fan
+\* of the same generator
+TOpts ==
+    /\ IsEvent("opts") /\ NoPanic
+    /\ LET o == ApplyCalls(OptionsNew, Ev.calls) IN
+       /\ Ev.compatible = IsTlshCompatible(o)
+       /\ Ev.eq_new = (o = OptionsNew)                 \* PartialEq: equal iff all settings equal
+       /\ Ev.eq_default = (o = OptionsNew)             \* Default::default() == new()
+       /\ Ev.fin = Ev.fan[OptionNumber(o) + 1]
+
+TErrs ==
+    /\ IsEvent("errs") /\ NoPanic
+    /\ \A i \in 1..Len(Ev.gen) :
+          /\ Ev.gen[i].category = GeneratorErrorCategory(Ev.gen[i].name)
+          /\ Ev.gen[i].text = ErrorText(Ev.gen[i].name)
+    /\ \A i \in 1..Len(Ev.other) : Ev.other[i].text = ErrorText(Ev.other[i].name)
+    /\ \A i \in 1..Len(Ev.either) : Ev.either[i].text = EitherText(Ev.either[i].side, Ev.either[i].name)
+    /\ Ev.defaults = <<"WithVersion", "Default", "Optimistic">>
+
+\* PartialEq / Clone / Copy on hash values: equal iff the byte images are equal
+TEq ==
+    /\ IsEvent("eq") /\ Clean
+    /\ Ev.eq = (Ev.a1 = Ev.b1) /\ Ev.eq_rev = Ev.eq /\ Ev.clone_eq /\ Ev.self_eq
+
 TraceNext ==
     \/ (TFmt /\ TRUE) \/ TFmtSweep \/ TParse \/ TParseSweep \/ TFromBytes \/ TStore
-    \/ TSer \/ TDe \/ TDeDoc \/ TAgg
+    \/ TSer \/ TDe \/ TDeDoc \/ TAgg \/ TOpts \/ TErrs \/ TEq
     \/ TCmp \/ TDistMatrix \/ TBodyMatrix \/ TBodyDist \/ TCmpStr \/ TDecodeMatrix \/ TEncodeTable
 
 TraceInit == l = 1
